@@ -32,7 +32,7 @@ def run(tier, replay=None):
     l2c = [c for c in l2all if len(c["hist"]) == 2]
     sim = [c for c in gen.dedupe(sim, key) if len(c["hist"]) >= 3]
     n2 = len(l2c)
-    b2, b3 = (5000, 1500) if tier == "quick" else (len(l2c), 25000)
+    b2, b3 = (5000, 1500) if tier == "quick" else (16000, 8000)
     if len(l2c) > b2:
         l2c = rnd.sample(l2c, b2)
     if len(sim) > b3:
